@@ -76,7 +76,11 @@ pub(crate) fn region_token_waiter(v: &SetView, obj: usize) -> bool {
 }
 
 fn post_acquire_body(inside_region: bool) {
-    const N: usize = 3;
+    post_acquire_body_n(inside_region, 3)
+}
+
+#[allow(non_snake_case)]
+fn post_acquire_body_n(inside_region: bool, N: usize) {
     let (mut ex, m, other) = mutex_exec(N);
     let old = set_view(&ex.threads);
     let a = old.active.unwrap();
@@ -146,7 +150,11 @@ fn c07_mutex_post_acquire__inside() {
 }
 
 fn release_lock_body(inside_region: bool) {
-    const N: usize = 3;
+    release_lock_body_n(inside_region, 3)
+}
+
+#[allow(non_snake_case)]
+fn release_lock_body_n(inside_region: bool, N: usize) {
     let (mut ex, m, other) = mutex_exec(N);
     let old = set_view(&ex.threads);
     let a = old.active.unwrap();
@@ -311,5 +319,93 @@ fn c07_mutex_acquire_lock_blocks_while_held() {
     kani::assume(matches!(thread_at(&ex.threads, a).state, crate::rt::thread::State::Runnable { .. }));
     crate::rt::scheduler::verif_kani::with_ctx(&mut ex, || m.acquire_lock(Location::disabled()));
     oblige!("C07.mutex.acquire.never_returns_while_lock_is_held", false);
+}
+}
+
+crate::with_fire_forbidden! {
+//@ props=C07,C05,C08 tier=thorough timeout=3000 fns=src/rt/mutex.rs::Mutex::try_acquire_lock,src/rt/mutex.rs::Mutex::post_acquire bounded=threads:N=4 models=VersionVec::join=s_vv_models_agree,Execution::schedule=probe,Scheduler::switch=counting
+#[kani::proof]
+#[kani::unwind(7)]
+#[kani::stub(crate::rt::execution::Execution::schedule, crate::rt::execution::Execution::schedule_probe_model)]
+#[kani::stub(crate::rt::scheduler::Scheduler::switch, crate::rt::scheduler::verif_kani::switch_counting_model)]
+fn c07_mutex_post_acquire_n4() {
+    let inside: bool = kani::any();
+    if inside { post_acquire_body_n(true, 4) } else { post_acquire_body_n(false, 4) }
+}
+}
+
+crate::with_fire_forbidden! {
+//@ props=C07,C05,C08 tier=thorough timeout=3000 fns=src/rt/mutex.rs::Mutex::release_lock bounded=threads:N=4 models=VersionVec::join=s_vv_models_agree
+#[kani::proof]
+#[kani::unwind(7)]
+fn c07_mutex_release_lock_n4() {
+    let inside: bool = kani::any();
+    if inside { release_lock_body_n(true, 4) } else { release_lock_body_n(false, 4) }
+}
+}
+
+crate::with_fire_forbidden! {
+//@ props=C07,C05,C08 tier=thorough timeout=3000 fns=src/rt/mutex.rs::Mutex::try_acquire_lock,src/rt/mutex.rs::Mutex::post_acquire bounded=threads:N=5(=MAX_THREADS) models=VersionVec::join=s_vv_models_agree,Execution::schedule=probe,Scheduler::switch=counting
+#[kani::proof]
+#[kani::unwind(7)]
+#[kani::stub(crate::rt::execution::Execution::schedule, crate::rt::execution::Execution::schedule_probe_model)]
+#[kani::stub(crate::rt::scheduler::Scheduler::switch, crate::rt::scheduler::verif_kani::switch_counting_model)]
+fn c07_mutex_post_acquire_n5() {
+    let inside: bool = kani::any();
+    if inside { post_acquire_body_n(true, 5) } else { post_acquire_body_n(false, 5) }
+}
+}
+
+crate::with_fire_forbidden! {
+//@ props=C07,C05,C08 tier=thorough timeout=3000 fns=src/rt/mutex.rs::Mutex::release_lock bounded=threads:N=5(=MAX_THREADS) models=VersionVec::join=s_vv_models_agree
+#[kani::proof]
+#[kani::unwind(7)]
+fn c07_mutex_release_lock_n5() {
+    let inside: bool = kani::any();
+    if inside { release_lock_body_n(true, 5) } else { release_lock_body_n(false, 5) }
+}
+}
+
+crate::with_fire_forbidden! {
+//@ props=C07,C05,C08 tier=thorough fns=src/rt/mutex.rs::Mutex::try_acquire_lock,src/rt/mutex.rs::Mutex::post_acquire bounded=threads:N=1 models=VersionVec::join=s_vv_models_agree,Execution::schedule=probe,Scheduler::switch=counting
+#[kani::proof]
+#[kani::unwind(7)]
+#[kani::stub(crate::rt::execution::Execution::schedule, crate::rt::execution::Execution::schedule_probe_model)]
+#[kani::stub(crate::rt::scheduler::Scheduler::switch, crate::rt::scheduler::verif_kani::switch_counting_model)]
+fn c07_mutex_post_acquire_n1() {
+    let inside: bool = kani::any();
+    if inside { post_acquire_body_n(true, 1) } else { post_acquire_body_n(false, 1) }
+}
+}
+
+crate::with_fire_forbidden! {
+//@ props=C07,C05,C08 tier=thorough fns=src/rt/mutex.rs::Mutex::release_lock bounded=threads:N=1 models=VersionVec::join=s_vv_models_agree
+#[kani::proof]
+#[kani::unwind(7)]
+fn c07_mutex_release_lock_n1() {
+    let inside: bool = kani::any();
+    if inside { release_lock_body_n(true, 1) } else { release_lock_body_n(false, 1) }
+}
+}
+
+crate::with_fire_forbidden! {
+//@ props=C07,C05,C08 tier=thorough fns=src/rt/mutex.rs::Mutex::try_acquire_lock,src/rt/mutex.rs::Mutex::post_acquire bounded=threads:N=2 models=VersionVec::join=s_vv_models_agree,Execution::schedule=probe,Scheduler::switch=counting
+#[kani::proof]
+#[kani::unwind(7)]
+#[kani::stub(crate::rt::execution::Execution::schedule, crate::rt::execution::Execution::schedule_probe_model)]
+#[kani::stub(crate::rt::scheduler::Scheduler::switch, crate::rt::scheduler::verif_kani::switch_counting_model)]
+fn c07_mutex_post_acquire_n2() {
+    let inside: bool = kani::any();
+    if inside { post_acquire_body_n(true, 2) } else { post_acquire_body_n(false, 2) }
+}
+}
+
+crate::with_fire_forbidden! {
+//@ props=C07,C05,C08 tier=thorough fns=src/rt/mutex.rs::Mutex::release_lock bounded=threads:N=2 models=VersionVec::join=s_vv_models_agree
+#[kani::proof]
+#[kani::unwind(7)]
+fn c07_mutex_release_lock_n2() {
+    let inside: bool = kani::any();
+    if inside { release_lock_body_n(true, 2) } else { release_lock_body_n(false, 2) }
 }
 }
